@@ -112,6 +112,40 @@ ASSUME \A B \in {2, 3, 8, 10, 16, 36} : \A k \in -6..6 :
           /\ FastFloorLog(B, QPowBase(B, k)) = k
           /\ FastFloorLog(B, QSub(QPowBase(B, k), QPowBase(B, k - 30))) = k - 1
           /\ FastFloorLog(B, QAdd(QPowBase(B, k), QPowBase(B, k - 30))) = k
+\* the arithmetic kernels restate BigNat: same values on patterned and pseudo-random operands
+Lcg(i, salt) == ((((i + salt * 31) % 4093) * 1277 + 911 * (salt % 1000) + 13) % 4099) % 256
+Pat(kind, n, salt) ==
+  IF n = 0 THEN <<>> ELSE
+  CASE kind = 0 -> [i \in 1..n |-> IF i = n THEN 1 + (Lcg(i, salt) % 255) ELSE Lcg(i, salt)]
+    [] kind = 1 -> [i \in 1..n |-> 255]
+    [] kind = 2 -> [i \in 1..n |-> IF i = n THEN 1 ELSE 0]
+    [] kind = 3 -> [i \in 1..n |-> IF i = n THEN 255 ELSE IF i = n - 1 THEN 0 ELSE 255]
+    [] kind = 4 -> [i \in 1..n |-> IF i = n THEN 1 ELSE IF i = 1 THEN 1 ELSE 0]
+Lens == {0, 1, 2, 3, 5, 9, 17}
+Operands == {Pat(kd, n, sl) : kd \in 0..4, n \in Lens, sl \in {1, 2}}
+ASSUME \A a \in Operands, b \in Operands :
+          /\ FAdd(a, b) = Add(a, b)
+          /\ FMul(a, b) = Mul(a, b)
+          /\ (b # <<>> => LET qr == FDivMod(a, b) IN
+                            /\ qr = DivMod(a, b)
+                            /\ Add(Mul(qr[1], b), qr[2]) = a /\ Cmp(qr[2], b) < 0 /\ IsNat(qr[1]) /\ IsNat(qr[2])
+                            /\ FDivFloor(a, b) = qr[1]
+                            /\ FDivCeil(a, b) = (IF qr[2] = <<>> THEN qr[1] ELSE Add(qr[1], One)))
+ASSUME \A a \in Operands, k \in {0, 1, 2, 255, 256, 65537, 4194303} :
+          /\ FMulSmall(a, k) = MulSmall(a, k)
+          /\ (k # 0 => FDivModSmall(a, k) = DivModSmall(a, k) /\ NDivLo(a, k) = DivSmall(a, k)
+                       /\ NDivHi(a, k) = (IF DivModSmall(a, k)[2] = 0 THEN DivSmall(a, k) ELSE Add(DivSmall(a, k), One)))
+ASSUME \A a \in {Pat(kd, n, 1) : kd \in 0..4, n \in {0, 1, 2, 5}}, n \in {0, 1, 2, 3, 7, 16, 21} : FPow(a, n) = Pow(a, n)
+ASSUME \A a \in Operands, k \in {0, 1, 7, 8, 9, 31} : FShl(a, k) = Shl(a, k)
+ASSUME \A n1 \in {-7, 0, 3, 12345}, d1 \in {1, 7, 1000}, n2 \in {-5, 0, 2, 99999}, d2 \in {1, 7, 256} :
+          LET p == qi(n1, d1) q == qi(n2, d2) IN
+          /\ FQCmp(p, q) = QCmp(p, q)
+          /\ QEq(FQAdd(p, q), QAdd(p, q)) /\ QEq(FQSub(p, q), QSub(p, q)) /\ QEq(FQMul(p, q), QMul(p, q))
+          /\ QFxFloor(p, 2) = QFloor(QMulInt(p, IFromNative(65536))) /\ QFxCeil(p, 2) = QCeil(QMulInt(p, IFromNative(65536)))
+ASSUME \A B \in {2, 3, 10, 36}, sg \in {-12345, 0, 7}, ex \in {-9, 0, 4} :
+          QEq(FFVal(B, [sig |-> IFromNative(sg), exp |-> ex]), FVal(B, F(IFromNative(sg), ex)))
+          /\ QEq(FQPowBase(B, ex), QPowBase(B, ex))
+ASSUME PrintT("enclosure: kernels ok")
 ASSUME FastFloorLog(10, QPowBase(10, 300)) = 300 /\ FastFloorLog(36, QPowBase(36, -250)) = -250
 ASSUME QPowInt(qi(-3, 2), 3) = qi(-27, 8) /\ QEq(QPowInt(qi(-3, 2), -3), qi(-8, 27)) /\ QEq(QPowInt(qi(0, 1), 0), QOne)
 ASSUME PrintT("enclosure: floorlog ok")
